@@ -230,6 +230,13 @@ def instruction_pool():
     return Label, x.NearJump, good
 
 
+def show_ins(i):
+    try:
+        return '%s(%s)' % (type(i).__name__, str(i))
+    except Exception:      # noqa: BLE001
+        return repr(i)
+
+
 def real_peephole(stream):
     from ppci.codegen.peephole import PeepHoleStream
     from ppci.binutils.outstream import OutputStream
@@ -304,7 +311,7 @@ def peephole_stage(ctx, thorough):
         try:
             out = real_peephole(st)
         except Exception as ex:      # noqa: BLE001
-            ctx.violation({'fn': 'PeepHoleStream', 'args': [repr(i) for i in st], 'expected': 'no exception',
+            ctx.violation({'fn': 'PeepHoleStream', 'args': [show_ins(i) for i in st], 'expected': 'no exception',
                            'actual': repr(ex), 'how_to_replay': 'emit the items into PeepHoleStream(recorder); flush()'})
             continue
         idx = {id(it): k for k, it in enumerate(st)}
@@ -320,7 +327,7 @@ def peephole_stage(ctx, thorough):
     ctx.cov['distinct_nontrivial'] += removed_any
     ctx.note_sample({'fn': 'PeepHoleStream', 'input': [repr(i) for i in streams[len(directed) + 1]][:8]})
     for st, got, want in bad_oracle[:3]:
-        ctx.violation({'fn': 'PeepHoleStream', 'key': 'peephole-oracle', 'args': [repr(i) for i in st],
+        ctx.violation({'fn': 'PeepHoleStream', 'key': 'peephole-oracle', 'args': [show_ins(i) for i in st],
                        'expected': 'kept indices %r (only `jmp L` directly followed by `L:`/`jmp L` may be dropped)' % (want,),
                        'actual': 'kept indices %r' % (got,),
                        'how_to_replay': 'emit the items into ppci.codegen.peephole.PeepHoleStream(recorder); flush(); compare'})
@@ -1030,7 +1037,7 @@ class PendingFixes:
     disappears there, it is caused by a defect that already has a proposed fix (possibly of another property)."""
 
     def __init__(self, ctx, nat):
-        self.ctx, self.nat, self.trees = ctx, nat, {}
+        self.ctx, self.nat, self.trees, self.cache = ctx, nat, {}, {}
         import vlib
         self.repo, self.verif = vlib.REPO, vlib.VERIF
         self.diffs = sorted(f for f in os.listdir(os.path.join(self.verif, 'fixes')) if f.endswith('.diff'))
@@ -1133,8 +1140,14 @@ def native_compare(ctx, nat, src, label, pending, levels=(0, 1, 2, 's'), both_li
                    'how_to_replay': 'save source as t.c; reference: gcc -O0 main.c t.c (main.c = DRIVER_GCC of tools/props/c04.py); '
                                     'ppci: api.cc(t.c, "x86_64", opt_level) -> write_elf(relocatable) -> gcc -no-pie main.c t.o '
                                     '(or api.link with START_ASM/START_C/MMAP + objcopy elf); compare stdout and exit status'}
+            sig = (label, str(got[0]), re.sub(r'0x[0-9a-f]+', '0x', str(got[1])))
             try:
-                att = pending.attribute(opt, link, ref)
+                if ctx.failed_stages:
+                    # the code no longer corresponds to the models / proofs: no mismatch is written off as a known finding
+                    pending.cache[sig] = None
+                if sig not in pending.cache:       # the same wrong output of the same program: attributed once
+                    pending.cache[sig] = pending.attribute(opt, link, ref)
+                att = pending.cache[sig]
             except Exception as ex:      # noqa: BLE001
                 ctx.log('attribution failed: %r' % (ex,))
                 att = None
